@@ -14,7 +14,7 @@ from harness import htaio
 from harness.props import common as C
 from harness.props import cpcommon as CP
 
-N_CASES = {"quick": 90, "thorough": 1500}
+N_CASES = {"quick": 150, "thorough": 1500}
 SHRINK = True
 ASSUMPTIONS = [
     "JSON and gzip encoding/decoding (Python's json and gzip modules) are trusted: events are compared after decoding, as JSON values, position by position",
